@@ -1,6 +1,7 @@
 import Driver.Proto
 import TongoModel.CellFmt
 import TongoModel.WalletSend
+import TongoModel.WalletSendMsg
 import TongoModel.WalletSeed
 /-! Line handlers for property C15 (wallet address and send parameters). -/
 namespace Driver
@@ -25,8 +26,12 @@ private def addrOut : Outcome Address → String
   | .err _ => "err"
   | .panic _ => "panic"
 
-def walletOpts (wc : Option Int) (sub : Option Nat) (net : Option Int) : Opts :=
-  { workchain := wc, subWallet := sub, net := net }
+/-- the option list the harness hands to `wallet.New` (`walletOpts` in harness/cmd/vh/walletcommon.go): WithWorkchain,
+WithSubWalletID, WithNetworkGlobalID, each only when given, in this order -/
+def walletOptList (wc : Option Int) (sub : Option Nat) (net : Option Int) : List OptSetter :=
+  (wc.map OptSetter.workchain).toList ++ (sub.map OptSetter.subWallet).toList ++ (net.map OptSetter.net).toList
+
+def walletOpts (wc : Option Int) (sub : Option Nat) (net : Option Int) : Opts := applyOptions (walletOptList wc sub net)
 
 def parseAcct (s : String) : Option AcctState :=
   if s == "none" then some .none
@@ -60,7 +65,7 @@ def opsC15 : List (String × Handler) := [
     | [ver, _seed, pk, wc, sub, net, code] =>
       match ver.toNat?, hexArg pk, optIntArg wc, optNatArg sub, optIntArg net, cellArg code with
       | some ver, some pk, some wc, some sub, some net, some code =>
-        addrOut (newGetAddress sha256 code ver pk (walletOpts wc sub net))
+        addrOut (apiNewGetAddress sha256 code ver pk (walletOptList wc sub net))
       | _, _, _, _, _, _ => "bad-op"
     | _ => "bad-op"),
   -- w.gwa <ver> <pk> <wc> <sub|_> <net|_> <code>                wallet.GenerateWalletAddress
@@ -68,7 +73,7 @@ def opsC15 : List (String × Handler) := [
     | [ver, pk, wc, sub, net, code] =>
       match ver.toNat?, hexArg pk, wc.toInt?, optNatArg sub, optIntArg net, cellArg code with
       | some ver, some pk, some wc, some sub, some net, some code =>
-        addrOut (generateWalletAddress sha256 code ver pk net wc sub)
+        addrOut (apiGenerateWalletAddress sha256 code ver pk net wc sub)
       | _, _, _, _, _, _ => "bad-op"
     | _ => "bad-op"),
   -- w.gsi <ver> <pk> <wc> <sub|_> <net|_> <code>                wallet.GenerateStateInit, marshalled
@@ -76,7 +81,7 @@ def opsC15 : List (String × Handler) := [
     | [ver, pk, wc, sub, net, code] =>
       match ver.toNat?, hexArg pk, wc.toInt?, optNatArg sub, optIntArg net, cellArg code with
       | some ver, some pk, some wc, some sub, some net, some code =>
-        "ok " ++ cellOut (generateStateInit code ver pk net wc sub)
+        "ok " ++ cellOut (apiGenerateStateInit code ver pk net wc sub)
       | _, _, _, _, _, _ => "bad-op"
     | _ => "bad-op"),
   -- w.send <ver> <seed> <pk> <wc|_> <sub|_> <net|_> <code> <state> <acctErr> <sendErr> <nMsgs> <waitMs> <polls>
